@@ -88,6 +88,8 @@ async def main():
             d2 = os.path.join(tmp, f'n{mask}')
             os.makedirs(d2)
             open(os.path.join(d2, 'f.txt'), 'w').close()
+            open(os.path.join(d2, 'f (1).txt.bak'), 'w').close()        # also matches the numbered pattern (the match is not anchored at the end)
+            open(os.path.join(d2, 'f (2).txt~'), 'w').close()
             for i in range(4):
                 if mask >> i & 1:
                     open(os.path.join(d2, f'f ({i + 1}).txt'), 'w').close()
